@@ -117,6 +117,17 @@ CHECKS = {
              'system call is checked as well.',
         note='The anonymous temporary file used for decompressing .gz images is whitelisted by its O_TMPFILE / '
              'unlinked-temp signature.'),
+    'C05': dict(
+        category='exploration', design_ref='DESIGN.md section 2, C05',
+        technique='metamorphic monitor: the same generated disc as sector dump and as HFE v1 / HFE v3 / HxC MFM flux image, every command result compared',
+        text='Generated discs (Acorn/Watford/Opus; FM 10 spt, MFM 16/18 spt; 35/40/80 tracks; one or two sides) are '
+             'encoded by an independent FM/MFM encoder with random legal gap/sync lengths, sector order, index marks, '
+             'per-track length jitter, tightly packed tracks and both LUT length conventions, as HFE v1, HFE v3 with '
+             'NOP/SETINDEX/SETBITRATE/SKIPBITS 0-7 inserted anywhere, and HxC MFM; cat, free, show-titles, info, space, '
+             'type --binary, sector-map, dump-sector, extract-files and extract-unused must give the same stdout and '
+             'status as on the ssd/sdd/dsd/ddd of the same disc.',
+        note='The sector-dump run is the reference (itself checked by C01/C02/C04/C14).  16-spt discs are compared '
+             'at file/catalogue level only.  SKIPBITS semantics follow the HxC reference implementation.'),
 }
 
 PENDING_REASON = 'check not built yet in this revision of /verif (see DESIGN.md section 7 for the order of work)'
